@@ -94,7 +94,7 @@ theorem report_spec (U : P → V → Prop) (HS : Prop) (t : DerivationTree P S V
         (fun _ _ _ _ h => h.left) (fun _ _ _ _ h => h.right)
         (fun id t1 a1 b1 t2 a2 b2 h1 h2 => Sub.cons hc h1 h2)
         (fun _ _ _ _ h hS => h.entails (hs hS)) F).1
-      exact hspec Reporter.new terms sid c1 c2 r Sub.refl (RInv.new _ U HS) hb
+      exact hspec Reporter.new terms sid c1 c2 r Sub.refl (RepInv.new _ U HS) hb
 
 /-! ### termination -/
 
